@@ -474,6 +474,10 @@ static void do_tight(char *line) {
       vs_write(tpeer, m, 6); vs_write(tpeer, arg, alen); }
     else if (!strcmp(kind, "uploaddone")) { m[0] = 133; vs_write(tpeer, m, 6); vs_put32(m, 1000000000u); vs_write(tpeer, m, 4); }
     else if (!strcmp(kind, "uploadfail")) { m[0] = 135; vs_put16(m + 2, (unsigned)alen); vs_write(tpeer, m, 4); vs_write(tpeer, arg, alen); }
+    else if (!strcmp(kind, "uploadtrunc")) {      /* header announces 50 more name bytes than are sent, then the peer stops sending */
+      m[0] = 132; vs_put16(m + 2, (unsigned)alen + 50); vs_write(tpeer, m, 8); vs_write(tpeer, arg, alen); shutdown(tpeer, SHUT_WR); }
+    else if (!strcmp(kind, "teardown")) {         /* the server drops the connection: extension close hook */
+      npend = 0; in_req = 1; rfbCloseClient(cl); in_req = 0; flush_tx(); free(arg); continue; }
     else if (!strcmp(kind, "dlcancel")) { m[0] = 134; vs_put16(m + 2, (unsigned)alen); vs_write(tpeer, m, 4); vs_write(tpeer, arg, alen); }
     else { puts("?? kind"); continue; }
     npend = 0; in_req = 1;
